@@ -38,7 +38,8 @@ CONSTANTS Source,         \* "enum" | "file"
           Fixed,          \* known findings whose fix is in the tree (known_findings.json status "fixed"): the
                           \* producers below then follow the repaired code instead of the deviation
           MaxNonDefault,  \* enum: at most this many objects get a non-default privacy
-          Depths          \* enum: values of --sidebar-expand-depth
+          Depths,         \* enum: values of --sidebar-expand-depth
+          FeatCounts      \* enum: how many of the optional features (dup, move, multi, nested) a model may combine
 
 None == "none"
 Fx(f) == f \in Fixed
@@ -597,7 +598,9 @@ FileOut == LET O == ObsView  S == ObsSite IN
 
 Assignments(S) == {g \in [S -> {"PUBLIC", "PRIVATE", "HIDDEN"}] : \A v \in S : g[v] \in Alt(v)}
 InitEnum == /\ Source = "enum" /\ cid = 0
-            /\ feat \in Feats
+            /\ feat \in {f \in Feats : Cardinality({x \in {"dup", "move", "multi", "nested"} :
+                                  (x = "dup" /\ f.dup) \/ (x = "move" /\ f.move) \/ (x = "multi" /\ f.multi) \/ (x = "nested" /\ f.nested)})
+                                  \in FeatCounts}
             /\ depth \in Depths
             /\ \E S \in {S \in SUBSET Varied(feat) : Cardinality(S) <= MaxNonDefault} :
                  \E g \in Assignments(S) : nd = {[id |-> v, p |-> g[v]] : v \in S}
